@@ -59,6 +59,8 @@ pub struct EpochKey {
     pub initializer: ProtocolInitializer,
     pub signer: Signer,
     pub stake: u64,
+    /// the protocol parameters the party was given when it created this key
+    pub parameters: ProtocolParameters,
 }
 
 pub fn make_parties(n: usize) -> Vec<Party> {
@@ -108,7 +110,7 @@ impl Party {
             operational_certificate: Some(self.operational_certificate.clone()),
             kes_evolutions: Some(KesEvolutions(0)),
         };
-        EpochKey { recording_epoch, initializer, signer, stake }
+        EpochKey { recording_epoch, initializer, signer, stake, parameters: parameters.clone() }
     }
 }
 
